@@ -9,6 +9,8 @@ CONSTANTS
   Avoid = {}
 SPECIFICATION Spec
 INVARIANT Registered
+INVARIANT NoOpenIfAvoided
+INVARIANT OpenIsRemovedSinceAdded
 INVARIANT TypeOK
 INVARIANT EmitNode
 CHECK_DEADLOCK FALSE
